@@ -37,7 +37,7 @@ def demo_cmd(demo, wt):
     run = "./demo"
     if mp and comp.startswith("mpicxx"):
         run = "mpirun --allow-run-as-root --oversubscribe -n %s ./demo" % mp.group(1)
-    env = {"OMP_WAIT_POLICY": "passive"}
+    env = {"OMP_WAIT_POLICY": "passive", "W": wt, "WT": wt, "WORKTREE": wt}
     if threads:
         env["OMP_NUM_THREADS"] = threads.group(1)
     return comp, run, env
